@@ -53,24 +53,30 @@ out.append("%d of %d seeded changes are reported; %d by the check of the propert
            % (sum(1 for sid in r1 if rows[sid]), len(r1), n_own))
 t1 = "\n".join(out)
 # rounds 2, 3
-r23 = sorted(sid for sid in rows if sid.startswith("R"))
-out = ["| seed | file(s) changed | what the change does (short) | first run: reported by | now: reported by |", "|---|---|---|---|---|"]
-for sid in r23:
-    m = meta(sid)
-    out.append("| %s | %s | %s | %s | %s |" % (sid, ", ".join(os.path.basename(f) for f in (m.get("files") or [])), short(m),
-                                              bold(first.get(sid, []), m["property"]) if sid in first else "(not recorded)", bold(rows[sid], m["property"])))
-own_first = sum(1 for sid in r23 if meta(sid)["property"] in first.get(sid, []))
-none_first = sum(1 for sid in r23 if not first.get(sid, []))
-own_now = sum(1 for sid in r23 if meta(sid)["property"] in rows[sid])
-none_now = [sid for sid in r23 if not rows[sid]]
-out.append("")
-out.append("First run: %d of %d by the own property's check, %d by nothing. Now: %d by the own check, %d by a neighbour only, %d by nothing%s."
-           % (own_first, len(r23), none_first, own_now, len(r23) - own_now - len(none_now), len(none_now), (" (" + ", ".join(none_now) + ")") if none_now else ""))
-t2 = "\n".join(out)
+def table(r23):
+  out = ["| seed | file(s) changed | what the change does (short) | first run: reported by | now: reported by |", "|---|---|---|---|---|"]
+  for sid in r23:
+      m = meta(sid)
+      out.append("| %s | %s | %s | %s | %s |" % (sid, ", ".join(os.path.basename(f) for f in (m.get("files") or [])), short(m),
+                                                bold(first.get(sid, []), m["property"]) if sid in first else "(not recorded)", bold(rows[sid], m["property"])))
+  own_first = sum(1 for sid in r23 if meta(sid)["property"] in first.get(sid, []))
+  none_first = sum(1 for sid in r23 if not first.get(sid, []))
+  own_now = sum(1 for sid in r23 if meta(sid)["property"] in rows[sid])
+  none_now = [sid for sid in r23 if not rows[sid]]
+  out.append("")
+  out.append("First run: %d of %d by the own property's check, %d by nothing. Now: %d by the own check, %d by a neighbour only, %d by nothing%s."
+             % (own_first, len(r23), none_first, own_now, len(r23) - own_now - len(none_now), len(none_now), (" (" + ", ".join(none_now) + ")") if none_now else ""))
+  return "\n".join(out)
+
+
+t2 = table(sorted(sid for sid in rows if sid.startswith("R") and not sid.startswith("R5")))
+t5 = table(sorted(sid for sid in rows if sid.startswith("R5")))
 p = os.path.join(V, "DESIGN.md")
 s = open(p).read()
 s = put(s, "seed-table", t1)
 s = s.replace("SEED2_TABLE_PLACEHOLDER", t2) if "SEED2_TABLE_PLACEHOLDER" in s else put(s, "seed2-table", t2)
+s = put(s, "seed5-table", t5)
 open(p, "w").write(s)
 print(t1[-300:])
 print(t2[-400:])
+print(t5[-400:])
